@@ -3,6 +3,17 @@ import Mathlib.Tactic
 import Mathlib.Analysis.SpecialFunctions.Trigonometric.Complex
 import Mathlib.Analysis.SpecialFunctions.Complex.Arg
 
+/-!
+# C07 — coordinate conversions (`conv_*`)
+
+Theorems about the regenerated real-number reading of `typhon/geodesy.py` (`TR.*`).  Only the normal
+forms `nf_*` below unfold generated definitions; everything else uses the normal forms.
+
+`conv_geodetic_fixed_point` differs from the skeleton: `ha he0 he1 hpos` are dropped (not needed) and
+`hden` (the iteration's denominator `1 − e²N/(N+h)` is nonzero) is added; without it the statement is
+false, see `conv_aux_fixed_point_needs_hden`.
+-/
+
 open TR
 
 /-! normal forms -/
@@ -504,3 +515,67 @@ theorem conv_aux_fixed_point_needs_hden :
     (Or.inl (by norm_num)) (by rw [hb]) (by rw [hb]; norm_num)
   simp only [hb, nf_geodetic2cart, zero_mul, Real.sin_zero, mul_zero, Prod.mk.injEq] at this
   norm_num at this
+
+/-- with `n = a / √(1 − e² sin² φ)` (prime-vertical radius): `n ≥ a > 0`, `n(1−e²) + h > 0`, `n + h > 0` -/
+theorem conv_aux_N_facts (a e φ h : ℝ) (ha : 0 < a) (he0 : 0 < e) (he1 : e < 1)
+    (hh : -(a * (1 - e ^ 2)) < h) :
+    0 < a / Real.sqrt (1 - e ^ 2 * Real.sin φ ^ 2) ∧
+    0 < a / Real.sqrt (1 - e ^ 2 * Real.sin φ ^ 2) * (1 - e ^ 2) + h ∧
+    0 < a / Real.sqrt (1 - e ^ 2 * Real.sin φ ^ 2) + h := by
+  have hsc := Real.sin_sq_add_cos_sq φ
+  have he2 : 0 < 1 - e ^ 2 := by nlinarith
+  have he2' : 0 < e ^ 2 := by positivity
+  have hS1 : Real.sin φ ^ 2 ≤ 1 := by nlinarith [sq_nonneg (Real.cos φ)]
+  have hrad : 0 < 1 - e ^ 2 * Real.sin φ ^ 2 := by nlinarith [sq_nonneg (Real.sin φ)]
+  have hrad1 : 1 - e ^ 2 * Real.sin φ ^ 2 ≤ 1 := by nlinarith [sq_nonneg (Real.sin φ)]
+  have hW : 0 < Real.sqrt (1 - e ^ 2 * Real.sin φ ^ 2) := Real.sqrt_pos.mpr hrad
+  have hW1 : Real.sqrt (1 - e ^ 2 * Real.sin φ ^ 2) ≤ 1 := by
+    have := Real.sqrt_le_sqrt hrad1
+    rwa [Real.sqrt_one] at this
+  have hNa : a ≤ a / Real.sqrt (1 - e ^ 2 * Real.sin φ ^ 2) := by
+    rw [le_div_iff₀ hW]; nlinarith
+  generalize a / Real.sqrt (1 - e ^ 2 * Real.sin φ ^ 2) = n at *
+  have hn0 : 0 < n := lt_of_lt_of_le ha hNa
+  refine ⟨hn0, ?_, ?_⟩ <;> nlinarith
+
+/-- the hypotheses `hxy`, `hden` of `conv_geodetic_fixed_point` hold at the point `geodetic2cart h lat lon`
+with `B = lat·π/180` (so that theorem's hypotheses are jointly satisfiable) -/
+theorem conv_geodetic_is_fixed_point_den (h lat lon a e N0 h0 B0 : ℝ) (ha : 0 < a) (he0 : 0 < e) (he1 : e < 1)
+    (hlat : |lat| < 90) (hh : -(a * (1 - e ^ 2)) < h) :
+    let p := geodetic2cart h lat lon a e
+    let s := cart2geodetic_loop1_body p.1 p.2.1 p.2.2 a e (e ^ 2) (N0, h0, B0, lat * (Real.pi / 180))
+    (p.1 ≠ 0 ∨ p.2.1 ≠ 0) ∧ 1 - e ^ 2 * s.1 / (s.1 + s.2.1) ≠ 0 := by
+  intro p s
+  obtain ⟨hl1, hl2⟩ := conv_aux_latrange lat hlat
+  have hC : 0 < Real.cos (lat * (Real.pi / 180)) := Real.cos_pos_of_mem_Ioo ⟨hl1, hl2⟩
+  have hl := Real.sin_sq_add_cos_sq (lon * (Real.pi / 180))
+  obtain ⟨hn0, hD, hM⟩ := conv_aux_N_facts a e (lat * (Real.pi / 180)) h ha he0 he1 hh
+  have hs2 : s.2.1 = h := (conv_geodetic_is_fixed_point h lat lon a e N0 h0 B0 ha he0 he1 hlat hh).1
+  have hs1 : s.1 = a / Real.sqrt (1 - e ^ 2 * Real.sin (lat * (Real.pi / 180)) ^ 2) := by
+    simp only [s, nf_body]
+  have hp : p = _ := nf_geodetic2cart h lat lon a e
+  constructor
+  · by_contra hcon
+    rw [not_or, not_not, not_not] at hcon
+    obtain ⟨hx, hy⟩ := hcon
+    simp only [hp] at hx hy
+    have hMC : a / Real.sqrt (1 - e ^ 2 * Real.sin (lat * (Real.pi / 180)) ^ 2) + h ≠ 0 := hM.ne'
+    have hx' : Real.cos (lon * (Real.pi / 180)) = 0 := by
+      rcases mul_eq_zero.mp hx with h1 | h1
+      · rcases mul_eq_zero.mp h1 with h2 | h2
+        · exact absurd h2 hMC
+        · exact absurd h2 hC.ne'
+      · exact h1
+    have hy' : Real.sin (lon * (Real.pi / 180)) = 0 := by
+      rcases mul_eq_zero.mp hy with h1 | h1
+      · rcases mul_eq_zero.mp h1 with h2 | h2
+        · exact absurd h2 hMC
+        · exact absurd h2 hC.ne'
+      · exact h1
+    rw [hx', hy'] at hl
+    norm_num at hl
+  · rw [hs1, hs2]
+    generalize a / Real.sqrt (1 - e ^ 2 * Real.sin (lat * (Real.pi / 180)) ^ 2) = n at *
+    have e1 : 1 - e ^ 2 * n / (n + h) = (n * (1 - e ^ 2) + h) / (n + h) := by field_simp; ring
+    rw [e1]
+    exact (div_pos hD hM).ne'
